@@ -1363,3 +1363,14 @@ TABLE["C01"] += [
     B("character-literals-left-to-the-word-alternative", {"G12"},
       (IP + "tokens.py", "        QuotedString(\"'\") ^  # parse single quoted strings\n", "")),
 ]
+for _p, _r in (("C11", "H11"), ("C06", "M11")):
+    TABLE[_p] += [
+        B("pair-element-copied-unless-shared-or-reference", {_r},
+          (MW, "            if not (return_type.is_shared_ptr or return_type.is_ptr):", "            if not (return_type.is_shared_ptr or return_type.is_ref):")),
+        B("single-return-handed-through-only-when-shared", {_r},
+          (MW, "            if ctype.is_shared_ptr or ctype.is_ptr:", "            if ctype.is_shared_ptr or ctype.is_shared_ptr:")),
+    ]
+TABLE["C06"] += [
+    B("free-function-callee-without-its-name", {"M10"},
+      (MW, "            method_name = self._format_global_function(method, '::')\n            method_name += method.name\n", "            method_name = self._format_global_function(method, '::')\n")),
+]
